@@ -1,10 +1,7 @@
 SPECIFICATION Spec
 CONSTANTS
-  Pairs <- PairsSq
-  FamC <- Five
-  FamS <- Five
-  FamD <- Tiny
-  FamO <- Tiny
+  Pairs <- PairsCC
+  Profile = "strict"
   Dump = FALSE
 INVARIANT RefShape
 INVARIANT ImplAgrees
